@@ -394,6 +394,23 @@ impl Matcher {
                 }
             }
 
+            // A SPLIT/UNSPLIT takes effect after the day's trades. Restate the lots in the new
+            // units, so that later events are apportioned over the shares then held (and later
+            // sales use lots up) in the units those lines are written in.
+            for tx in &transactions[i..day_end] {
+                if let Some(ledger) = ledgers.get_mut(&tx.ticker) {
+                    match &tx.operation {
+                        Operation::Split { ratio } => ledger.restate_share_counts(*ratio, true),
+                        Operation::Unsplit { ratio } => ledger.restate_share_counts(*ratio, false),
+                        Operation::Buy { .. }
+                        | Operation::Sell { .. }
+                        | Operation::Dividend { .. }
+                        | Operation::Accumulation { .. }
+                        | Operation::CapReturn { .. } => {}
+                    }
+                }
+            }
+
             i = day_end;
         }
 
